@@ -77,6 +77,14 @@ return setmetatable({}, mt)(1)`, "")
 	add("meta__call-table-chain", `local f = function() return 7 end
 for i = 1, DEPTH do f = setmetatable({}, {__call = f}) end
 return f()`, "i:7")
+	// cycles of __call metamethods: no Lua instruction runs while the chain is followed
+	add("meta__call-self-cycle", `local t = setmetatable({}, {}) getmetatable(t).__call = t return t(1)`, "")
+	add("meta__call-two-cycle", `local a, b = setmetatable({}, {}), setmetatable({}, {}) getmetatable(a).__call = b getmetatable(b).__call = a return a(1)`, "")
+	add("meta__call-cycle-in-pcall", `local t = setmetatable({}, {}) getmetatable(t).__call = t local ok, e = pcall(t, 1) if ok then return 1 end error(e)`, "")
+	add("meta__call-cycle-as-callbacks", `local t = setmetatable({}, {}) getmetatable(t).__call = t
+pcall(table.sort, {3, 1, 2}, t) pcall(string.gsub, "abc", "%w", function(c) return t(c) end) pcall(xpcall, error, t) pcall(coroutine.wrap(t)) pcall(load, t)
+pcall(function() local x <close> = setmetatable({}, {__close = t}) end) pcall(function() return setmetatable({}, {__index = function(_, k) return t(k) end}).x end)
+for _ in pairs(setmetatable({}, {__pairs = t})) do end`, "")
 	add("meta__tostring", `local mt = {}
 mt.__tostring = function(s) return tostring(s) end
 return tostring(setmetatable({}, mt))`, "")
